@@ -271,7 +271,7 @@ func runRedef(c *Ctx) {
 			}
 		}
 		var stCall *ssa.Call
-		for _, ci := range core.Calls(planner, "reflect.StructOf") {
+		for _, ci := range p.RegionCalls(planner, "reflect.StructOf") {
 			stCall, _ = ci.(*ssa.Call)
 		}
 		if gbCall == nil || stCall == nil {
@@ -291,7 +291,21 @@ func runRedef(c *Ctx) {
 			c.R.Add("REDEF-R3", "planner|supplied-set", "planner", p.Pos(planner.Pos()), supplied != nil, "the planner collects the identities of all supplied input vertices", fmt.Sprintf("found=%v", supplied != nil))
 			fieldKinds := map[string]bool{}
 			nf := 0
-			for _, ap := range appendSites(planner, stCall.Common().Args[0]) {
+			var aps []*ssa.Call
+			for _, li := range c.fieldLists(stCall.Parent(), stCall.Common().Args[0]) {
+				for _, ap := range appendSites(li.fn, li.list) {
+					dup := false
+					for _, x := range aps {
+						if x == ap {
+							dup = true
+						}
+					}
+					if !dup {
+						aps = append(aps, ap)
+					}
+				}
+			}
+			for _, ap := range aps {
 				lits := core.Lits(core.Guards(ap.Block()))
 				inLoop := false
 				var loopKey ssa.Value
@@ -301,7 +315,7 @@ func runRedef(c *Ctx) {
 							if e, ok := ta.X.(*ssa.Extract); ok {
 								if nx, ok := e.Tuple.(*ssa.Next); ok {
 									if rg, ok := nx.Iter.(*ssa.Range); ok {
-										if fr, ok := core.AsFieldLoad(rg.X); ok && fr.Owner == "callState" {
+										if fr, ok := core.AsFieldLoad(p.Bind(rg.X)); ok && fr.Owner == "callState" {
 											inLoop = true
 											fieldKinds[core.NamedOf(ta.AssertedType)] = true
 											for _, ref := range *nx.Referrers() {
@@ -323,7 +337,7 @@ func runRedef(c *Ctx) {
 				excluded := false
 				for _, l := range lits {
 					if l.Kind == "ok" && !l.Pol {
-						if lk, ok := l.Of.(*ssa.Lookup); ok && supplied != nil && lk.X == supplied && lk.Index == loopKey {
+						if lk, ok := l.Of.(*ssa.Lookup); ok && supplied != nil && p.Bind(lk.X) == supplied && lk.Index == loopKey {
 							excluded = true
 						}
 					}
